@@ -13,7 +13,7 @@
 (***************************************************************************)
 EXTENDS Naturals, Sequences, FiniteSets
 
-ElemKinds == {"u8", "u16", "u32", "u64", "u128", "i8", "i16", "i32", "i64", "i128", "f32", "f64", "c64", "r64", "bool", "string"}
+ElemKinds == {"u8", "u16", "u32", "u64", "u128", "i8", "i16", "i32", "i64", "i128", "f32", "f64", "c64", "r64", "bool", "string", "ustring"}      \* ustring: strings with multi-byte characters
 Containers == {"scalar", "row", "col", "mat", "set", "tuple", "record", "table", "map"}
 Width(k) == IF k \in {"c64", "r64"} THEN 2 ELSE 1
 Count(c) == CASE c = "scalar" -> 1 [] c = "row" -> 3 [] c = "col" -> 3 [] c = "mat" -> 4 [] c = "set" -> 3
